@@ -16,12 +16,13 @@ Record forged := mkForged {
 }.
 
 (* integer sample counts: round(dur*SR), at least 2 each *)
+Notation min_points := 2%Z (only parsing).   (* a notation, so the proofs about int_durs see the literal *)
 Fixpoint int_durs (SR : Q) (ds : list val) : result (list Z) :=
   match ds with
   | [] => Ok []
   | VNum d :: t =>
       let n := rnd (d * SR) in
-      if n <? 2 then Err ESegDur else do r <- int_durs SR t; Ok (n :: r)
+      if n <? min_points then Err ESegDur else do r <- int_durs SR t; Ok (n :: r)
   | _ :: _ => Err EType
   end.
 
